@@ -3,7 +3,7 @@ from __future__ import annotations
 
 import torch
 
-from autojac_common import fmt_grads, grads_of, make_agg, rand_pre, set_pre
+from autojac_common import fmt_grads, grads_of, jac_dtype, make_agg, rand_pre, set_pre
 from common import Ctx, classify_exc, field, sx
 from progs import differentiable_nonleaves, numel, random_mtl, random_program, sibling_mtl
 from prop_C01 import TRUSTED
@@ -90,7 +90,7 @@ def check_backward(ctx: Ctx, P):
     e1 = None
     try:
         with mode():
-            backward(ts[tensors[0]] if bare else [ts[i] for i in tensors], make_agg(agg, torch.float64))
+            backward(ts[tensors[0]] if bare else [ts[i] for i in tensors], make_agg(agg, jac_dtype(ts, expected, torch.float64)))
     except Exception as e:  # noqa: BLE001
         e1 = classify_exc(e)
     g1 = grads_of(ts, report)
@@ -99,7 +99,7 @@ def check_backward(ctx: Ctx, P):
     e2 = None
     try:
         with mode():
-            backward(ts2[tensors[0]] if bare else [ts2[i] for i in tensors], make_agg(agg, torch.float64),
+            backward(ts2[tensors[0]] if bare else [ts2[i] for i in tensors], make_agg(agg, jac_dtype(ts2, expected, torch.float64)),
                      inputs=[ts2[i] for i in expected])
     except Exception as e:  # noqa: BLE001
         e2 = classify_exc(e)
@@ -137,7 +137,7 @@ def check_inplace_history(ctx: Ctx, P):
         q = torch.tensor(qv, dtype=torch.float64).reshape(shape).requires_grad_(q_rg)
         errs = []
         try:
-            backward([ts[y]], make_agg(agg1, torch.float64), retain_graph=True,
+            backward([ts[y]], make_agg(agg1, jac_dtype(ts, base, torch.float64)), retain_graph=True,
                      **({"inputs": [ts[i] for i in base]} if explicit else {}))
             errs.append(None)
         except Exception as e:  # noqa: BLE001
@@ -147,7 +147,7 @@ def check_inplace_history(ctx: Ctx, P):
         except Exception as e:  # noqa: BLE001   (e.g. an in-place edit of a view autograd forbids: same on both twins)
             return ("inplace-refused", classify_exc(e)), None, None
         try:
-            backward([ts[y]], make_agg(agg2, torch.float64),
+            backward([ts[y]], make_agg(agg2, jac_dtype(ts, base, torch.float64)),
                      **({"inputs": [ts[i] for i in base] + ([q] if q_rg else [])} if explicit else {}))
             errs.append(None)
         except Exception as e:  # noqa: BLE001
@@ -254,10 +254,10 @@ def check_mixed_history(ctx: Ctx, M):
         for step in (order.split("-then-")):
             try:
                 if step == "backward":
-                    backward([tsx[i] for i in M.losses], make_agg(agg1, torch.float64), retain_graph=True,
+                    backward([tsx[i] for i in M.losses], make_agg(agg1, jac_dtype(tsx, all_leaves, torch.float64)), retain_graph=True,
                              **({"inputs": [tsx[i] for i in all_leaves]} if explicit else {}))
                 else:
-                    mtl_backward([tsx[i] for i in M.losses], [tsx[i] for i in M.features], make_agg(agg2, torch.float64),
+                    mtl_backward([tsx[i] for i in M.losses], [tsx[i] for i in M.features], make_agg(agg2, jac_dtype(tsx, shared, torch.float64)),
                                  retain_graph=True,
                                  **({"tasks_params": [[tsx[i] for i in t] for t in tasks],
                                      "shared_params": [tsx[i] for i in shared]} if explicit else {}))
@@ -313,7 +313,7 @@ def check_mtl(ctx: Ctx, M):
     def call(tsx, tp, sp):
         set_pre(P, tsx, pre, torch.float64)
         try:
-            mtl_backward([tsx[i] for i in M.losses], [tsx[i] for i in M.features], make_agg(agg, torch.float64),
+            mtl_backward([tsx[i] for i in M.losses], [tsx[i] for i in M.features], make_agg(agg, jac_dtype(tsx, shared, torch.float64)),
                          tasks_params=None if tp is None else [[tsx[i] for i in t] for t in tp],
                          shared_params=None if sp is None else [tsx[i] for i in sp], retain_graph=retain)
             return None, grads_of(tsx, report)
